@@ -375,6 +375,9 @@ func emitMC(c *hlib.Ctx, s model3d.Solid, delta float64, big bool, c2f []float64
 		emitCase(c, opBase+" "+st.tag, "corr:c12 mc/"+fnOf(st.tag), func() string { return l.meshHash(st.run()) })
 		c.Stat("c12.mc.cases", 1)
 	}
+	if !big {
+		emitMCSearch(c, s, l, delta, fmt.Sprintf("n=%d,%d,%d bits=%s family=%s delta=%v", len(xs), len(ys), len(zs), bitStr(l.bits), family, delta))
+	}
 }
 
 func fnOf(tag string) string {
